@@ -23,7 +23,7 @@ def regen(chk):
         chk.notes.append("translation of webdav.etag_matches unavailable (%s): tied by correspondence on the header grid only" % err)
     else:
         transval.validate(chk, ["Etag"])
-    transval.regen(chk, ["Gates"])
+    transval.regen(chk, ["Gates", "StoreGate"])
     return err
 
 
